@@ -131,6 +131,14 @@ def hist_line(ev, cfg):
             out.append({'e': kind, 'p': p, 'op': 'pop', 'g': g})
         else:
             out.append({'e': kind, 'p': p, 'op': 'push', 'g': int(op.split(':')[1])})
+    # w: the result a pop call is going to return (-2: never returns in this history); prunes TLC's search for Lin steps
+    for i, e in enumerate(out):
+        e['w'] = -2
+        if e['e'] == 'c' and e['op'] == 'pop':
+            for f in out[i + 1:]:
+                if f['p'] == e['p'] and f['e'] in ('r', 'a'):
+                    e['w'] = f['g'] if f['e'] == 'r' else -2
+                    break
     return {'ev': out, 'free': free, 'hold': hold}
 
 
